@@ -90,11 +90,12 @@ class LoopSpec:
     vars: names of the program variables the invariant reads;
     havoc: optional callable (eng, st) that havocs heap state modified by the body."""
 
-    def __init__(self, inv_fn, vars, havoc=None, name="inv"):
+    def __init__(self, inv_fn, vars, havoc=None, name="inv", lists=None):
         self.inv_fn = inv_fn
         self.vars = list(vars)
         self.havoc = havoc
         self.name = name
+        self.lists = dict(lists or {})  # name -> tuple arity (0 = scalars) of lists that the body mutates
 
 
 def assigned_names(stmts):
@@ -103,6 +104,16 @@ def assigned_names(stmts):
         if isinstance(node, ast.Name) and isinstance(node.ctx, ast.Store):
             if node.id not in names:
                 names.append(node.id)
+    return names
+
+
+def mutated_lists(stmts):
+    """names on which the body calls a mutating list method"""
+    names = []
+    for node in ast.walk(ast.Module(body=list(stmts), type_ignores=[])):
+        if isinstance(node, ast.Call) and isinstance(node.func, ast.Attribute) and node.func.attr in ("append", "pop", "extend", "insert", "clear", "remove") and isinstance(node.func.value, ast.Name):
+            if node.func.value.id not in names:
+                names.append(node.func.value.id)
     return names
 
 
@@ -194,9 +205,11 @@ def eval_pred(eng, st, fn, args):
 
 def _with_invariant(eng, stmt, st, it):
     key = loop_key(eng, stmt, "for")
-    spec = eng.loop_specs.get(key) or eng.loop_specs.get(key.split(":")[0])
+    fn_name = eng.func_stack[-1] if eng.func_stack else "?"
+    spec = (eng.loop_specs.get(key) or eng.loop_specs.get(f"{fn_name}@for[{ast.unparse(stmt.target)}]") or eng.loop_specs.get(key.split(":")[0]))
     if spec is None:
         raise Unsupported(f"loop over symbolic iterable without invariant: {key}")
+    key = f"{fn_name}@for[{ast.unparse(stmt.target)}]"
     if isinstance(it, VList):
         sl = st.store[it.oid]["__sym__"]
         n, at = sl.n, (lambda s, k: sl.at(s, k))
@@ -212,23 +225,64 @@ def _with_invariant(eng, stmt, st, it):
     n = z3.If(n < 0, 0, n) if isinstance(it, SymRange) else n
     outs = []
 
+    clauses = spec.inv_fn if isinstance(spec.inv_fn, (list, tuple)) else [spec.inv_fn]
+
     def inv_at(s, k):
         args = [VInt(k)] + [eng.lookup(s, v) for v in spec.vars]
-        return eval_pred(eng, s, spec.inv_fn, args)
+        return [(getattr(f, "__name__", "inv"), eval_pred(eng, s, f, args)) for f in clauses]
+
+    def oblige(s, k, phase):
+        for cname, t in inv_at(s, k):
+            s.obligations.append((f"{key}#{spec.name}.{phase}" + (f".{cname}" if len(clauses) > 1 else ""), t))
+
+    def assume_inv(s, k):
+        for _, t in inv_at(s, k):
+            s.assume(t)
 
     # (1) initialisation
-    st.obligations.append((f"{key}#{spec.name}.init", inv_at(st, z3.IntVal(0))))
+    oblige(st, z3.IntVal(0), "init")
     # (2) arbitrary iteration
     mods = [m for m in assigned_names(stmt.body + [ast.Assign(targets=[stmt.target], value=ast.Constant(value=0))]) if m in st.env]
+    for m in mutated_lists(stmt.body):
+        if m in st.env and m not in mods:
+            mods.append(m)
+    # ghost code attached to statements of the body: what it declares to write is havoced like program variables
+    heap_mods = []
+    body_srcs = [ast.unparse(x) for x in ast.walk(ast.Module(body=list(stmt.body), type_ignores=[])) if isinstance(x, ast.stmt) and not isinstance(x, (ast.For, ast.While, ast.If, ast.Try))]
+    for prefix, _fn, *w in (getattr(eng, "ghost_hooks", None) or []):
+        if any(src.startswith(prefix) for src in body_srcs):
+            if not w:
+                raise Unsupported(f"ghost hook {prefix!r} inside a loop must declare what it writes")
+            for name in w[0]:
+                if name.startswith("heap:"):
+                    heap_mods.append(name)
+                elif name in st.env and name not in mods:
+                    mods.append(name)
+    for x in ast.walk(ast.Module(body=list(stmt.body), type_ignores=[])):
+        if isinstance(x, ast.Attribute) and isinstance(x.ctx, ast.Store) and ("heap:" + x.attr) in st.ghost:
+            heap_mods.append("heap:" + x.attr)
     body_st = st.fork()
+    for h in dict.fromkeys(heap_mods):
+        body_st.ghost[h] = fresh("h_" + h[5:], body_st.ghost[h].sort())
     for m in mods:
-        body_st.env[m] = havoc_value(body_st, m, body_st.env[m])
+        if m in spec.lists:
+            from .ulist import SymSeq, new_list
+
+            body_st.env[m] = new_list(body_st, SymSeq.fresh(body_st, "h_" + m, spec.lists[m]))
+        else:
+            body_st.env[m] = havoc_value(body_st, m, body_st.env[m])
     if spec.havoc:
         spec.havoc(eng, body_st)
     after_st = body_st.fork()
     k = fresh("k", INT)
+    idx_name = "idx_" + next((x.id for x in ast.walk(stmt.target) if isinstance(x, ast.Name)), "it")
     body_st.assume(z3.And(k >= 0, k < n))
-    body_st.assume(inv_at(body_st, k))
+    body_st.env[idx_name] = VInt(k)       # ghost: the iteration index, for invariants of inner loops and ghost hooks
+    after_st.env[idx_name] = VInt(n)
+    assume_inv(body_st, k)
+    # vacuity guard: the hypotheses of the inductive step (invariant at k, k < n, everything known before the loop)
+    # must not be contradictory -- checked as "false is not derivable" (contract.py)
+    body_st.obligations.append((f"{key}#{spec.name}.step_hypotheses_consistent", ("reachable", list(body_st.pc))))
     for o in eng.assign(body_st, stmt.target, at(body_st, k)):
         if o.kind != "normal":
             outs.append(o)
@@ -236,14 +290,15 @@ def _with_invariant(eng, stmt, st, it):
         for b in eng.exec_block(stmt.body, o.st):
             if b.kind in ("normal", "continue"):
                 # the obligations of this path are checked under its own path condition, then the path ends
-                b.st.obligations.append((f"{key}#{spec.name}.preserved", inv_at(b.st, k + 1)))
+                oblige(b.st, k + 1, "preserved")
                 outs.append(Outcome("loop-end", b.st))
             elif b.kind == "break":
                 outs.append(Outcome("normal", b.st))
             else:
                 outs.append(b)
     # (3) after the loop
-    after_st.assume(inv_at(after_st, n))
+    assume_inv(after_st, n)
+    after_st.obligations.append((f"{key}#{spec.name}.exit_hypotheses_consistent", ("reachable", list(after_st.pc))))
     if stmt.orelse:
         outs.extend(eng.exec_block(stmt.orelse, after_st))
     else:
